@@ -38,6 +38,8 @@ def emit_fev(cfg, e, sid):
         return "(FKey %d %d %s%%Z)" % (sid[e["sub"]], e["code"], cZ(e["val"]))
     if e["t"] == "a":
         return "(FAbs %d %d %s%%Z)" % (sid[e["sub"]], e["code"], cZ(e["val"]))
+    if e["t"] == "o":
+        return "FSyn"
     raise ValueError(e)
 
 
